@@ -13,6 +13,7 @@ use std::sync::atomic::{AtomicBool, AtomicUsize, Ordering};
 use std::sync::{Arc, OnceLock, Weak};
 use tokio::io::AsyncReadExt;
 use tokio::net::{TcpListener, TcpStream};
+use tokio::sync::Notify;
 use tracing::debug;
 
 static SHARED_PORTS: OnceLock<Mutex<HashMap<SocketAddr, Arc<SharedTcpPort>>>> = OnceLock::new();
@@ -26,6 +27,9 @@ struct SharedTcpPort {
     sessions: Mutex<HashMap<String, Weak<IceTransportInner>>>,
     ref_count: AtomicUsize,
     shutting_down: AtomicBool,
+    /// Wakes the accept loop when the last registration goes away (a parked
+    /// `accept()` never looks at `shutting_down` by itself).
+    shutdown: Notify,
 }
 
 impl SharedTcpPort {
@@ -35,6 +39,7 @@ impl SharedTcpPort {
             sessions: Mutex::new(HashMap::new()),
             ref_count: AtomicUsize::new(0),
             shutting_down: AtomicBool::new(false),
+            shutdown: Notify::new(),
         }
     }
 
@@ -46,7 +51,11 @@ impl SharedTcpPort {
                 if port.shutting_down.load(Ordering::Relaxed) {
                     break;
                 }
-                let accept = listener.accept().await;
+                let accept = tokio::select! {
+                    biased;
+                    _ = port.shutdown.notified() => break,
+                    res = listener.accept() => res,
+                };
                 match accept {
                     Ok((stream, peer)) => {
                         let port = Arc::clone(&port);
@@ -91,6 +100,8 @@ impl Drop for SharedTcpRegistration {
         let prev = self.port.ref_count.fetch_sub(1, Ordering::SeqCst);
         if prev == 1 {
             self.port.shutting_down.store(true, Ordering::SeqCst);
+            // `notify_one` stores a permit if the loop is not parked right now.
+            self.port.shutdown.notify_one();
             registry().lock().remove(&self.listen_key);
         }
     }
